@@ -183,6 +183,31 @@ reg("C14",
     "'Always wakes' is bounded liveness (20 virtual seconds, fair completion); schedules sampled + one targeted window.",
     "controlled-scheduler concurrency testing (random, PCT-like and targeted preemption)", "DESIGN.md#c14")
 
+# generator / oracle widenings of the sixth sensitivity round (DESIGN.md I.14), appended to the texts above
+ADD6 = {
+    "C02": " Also: decoder histories (a well-formed stream decoded after one decoder has refused malformed input up to 420 times, or after an earlier decoded result was edited in place) and a first-use sweep (two threads make the first decodes of a fresh interpreter, one parked mid-way).",
+    "C03": " Also: a CPU-time bound (ITIMER_VIRTUAL) for time spent below the interpreter, DiameterURI texts that go wrong late, and histories of refused inputs fed to one decoder; live inputs are pre-judged by the decoder oracle.",
+    "C04": " Also: segments cut exactly at plausible read sizes (4096 / 65536 / 262144 bytes with nothing pending), T-flagged messages and repeated End-to-End / Hop-by-Hop identifiers.",
+    "C05": " Also: long send_messages() lists (31..257 messages) and a sweep with the state machine thread paused inside the drain of the send queue while the same submitter hands over an answer / a request.",
+    "C06": " Also: Closing with a request of the local application outstanding, a further message after the DPA, every single event after 9 multi-step prefixes; an invalid CER may be answered with a rejection CEA (judged by C07) or not at all.",
+    "C07": " Also: two node objects of one process with the same local identity answering base requests at the same moment, one state machine thread parked at successive source lines (sweep).",
+    "C08": " Also: close() called while the state machine thread is parked at successive source lines of handling an inbound request (sweep over up to 330 positions x request kinds).",
+    "C09": " Also: the same bytes decoded again after the first decoded copy was edited in place.",
+    "C10": " Also: the out-of-domain byte values arriving on the wire under the class's (vendor, code) with every M/P combination (alone, in a message, as a Grouped member): refused or dispatched, never kept as a generic AVP; first-use decode sweep for the dispatch clause.",
+    "C11": " Also: Failed-AVP in the alphabet, has_avp() in the short-name form, rename targets with a leading underscore.",
+    "C12": " Also: request histories on the application object (T-flagged re-transmission under a new Hop-by-Hop id, same ids, other ids).",
+    "C13": " Also: a long life of one application object (45-130 requests, mostly failing) under the controlled scheduler.",
+    "C14": " Also: answers handed over through the real create_message_thread, answer content variety (non-ASCII Error-Message, binary User-Name, E bit, decoded from bytes), and a sweep with the library's answer thread parked at successive lines / lingering after its function returned while the next answer arrives.",
+    "C15": " Also: a random source that derives values from earlier ones (octets across the boundary of two earlier values, reversals, successors) with a directed sweep.",
+    "C16": " Also: a node object created between generations; Session-Ids with decomposed / compatibility / BOM text supplied as bytes.",
+    "C17": " Also: look-alike AVPs around the Result-Code (vendor-specific code 268, top-level 298, unknown AVP) and a mid-call concurrency sweep (one thread parked at each source line of a classification after a warm-up while another classifies the same code).",
+    "C18": " Also: long digit strings at boundary lengths up to 65 538 and the mid-call concurrency sweep (encode/decode/MSISDN/STN-SR).",
+    "C19": " Also: a YAML file rewritten and read again at the same path.",
+    "C20": " Also: addresses whose packed form starts like a family code (0.1.x.x, 0.2.x.x, 1:2::) and the mid-call concurrency sweep (Time, Address, flag words).",
+}
+for _pid, _t in ADD6.items():
+    CHECKS[_pid]["text"] += _t
+
 ALL = [f"C{i:02d}" for i in range(1, 21)]
 
 def main():
